@@ -17,7 +17,7 @@ META = dict(
     level_note="Trusted: Coq kernel + vm_compute; hand-written models tied by differential runs, not by a proof about Go source; the font "
                "library (advances, cmap, outlines, re-parse of embedded programs), the shaper and zlib are trusted glue. Known findings: "
                "CFF fonts whose embedded program is not the subset (wrong glyph selection), CFF charstrings the font library cannot "
-               "interpret. Start positions of text objects (Td/Tm) are not judged here (C12/C15).",
+               "interpret. Start positions of horizontal text objects (Tm/Td) are compared with the spans' positions by the harness (binary64, 1e-6).",
     harness=["c18"],
 )
 
@@ -30,8 +30,9 @@ PROP = {1: "prop:decode_W != source advance", 2: "prop:strict ToUnicode reader !
         8: "prop:TJ pen outside the proved bound", 16: "prop:font encoding (Identity-V for vertical text)", 32: "prop:embedded program glyph differs from source glyph",
         64: "prop:toPath advance != TextWidth", 128: "prop:panic/error", 256: "info:lenient ToUnicode reader fails too",
         1024: "prop:used .notdef has an empty outline in the subset program",
-        2048: "prop:toPath does not place every glyph at the sum of the preceding advances (or advance/TextWidth != that sum)"}
-PROP_MASK = 1 | 2 | 4 | 8 | 16 | 32 | 64 | 128 | 1024 | 2048
+        2048: "prop:toPath does not place every glyph at the sum of the preceding advances (or advance/TextWidth != that sum)",
+        4096: "prop:text object does not start at the span's position (text matrix != m.Translate(x,y).Shear(fauxItalic,0))"}
+PROP_MASK = 1 | 2 | 4 | 8 | 16 | 32 | 64 | 128 | 1024 | 2048 | 4096
 
 
 def names(tbl, fl):
